@@ -382,7 +382,7 @@ impl Block {
     /// Compute the transaction root using a binary Merkle tree.
     ///
     /// Hashes each transaction to form leaves, then recursively combines pairs
-    /// with SHA-256. Odd leaves are duplicated for the final pair.
+    /// with SHA-256. An odd node is hashed on its own (never paired with itself).
     #[must_use]
     pub fn compute_tx_root(&self) -> BlockHash {
         if self.transactions.is_empty() {
@@ -490,10 +490,9 @@ fn merkle_root(leaves: &[[u8; 32]]) -> [u8; 32] {
             hasher.update(chunk[0]);
             if chunk.len() > 1 {
                 hasher.update(chunk[1]);
-            } else {
-                // Odd number of leaves - duplicate the last one
-                hasher.update(chunk[0]);
             }
+            // An odd node is hashed alone: pairing it with itself would give
+            // [.., x] and [.., x, x] the same root.
             next_level.push(hasher.finalize().into());
         }
 
